@@ -229,6 +229,12 @@ impl Ls {
                     {"range": {"start": {"line": 0, "character": 0}, "end": end}, "text": text}]);
                 self.submit("textDocument/didChange", json!({"textDocument": {"uri": uri, "version": version}, "contentChanges": changes}), false)
             }
+            // every third full-text change travels as a batch: an editor that coalesces edits sends several whole
+            // texts in one notification, and the last one is the document
+            Some(old) if version % 3 == 0 => {
+                let changes = json!([{"text": format!("{old} teh batchq")}, {"text": "An interim text with an mistake."}, {"text": text}]);
+                self.submit("textDocument/didChange", json!({"textDocument": {"uri": uri, "version": version}, "contentChanges": changes}), false)
+            }
             _ => self.submit("textDocument/didChange", json!({"textDocument": {"uri": uri, "version": version}, "contentChanges": [{"text": text}]}), false),
         }
     }
